@@ -125,6 +125,8 @@ func runC06(w *World, c *Check) {
 	c.Rule("C06.flow", "the protocol key, the usage and the message bytes each flow into the integrity-hash computation of every verifier; the MAC is read from the RFC's position", 6)
 	c.Rule("C06.coverage", "each decryptor splits the message into body ‖ MAC with no byte outside both: DecryptData gets everything but the trailing MAC, VerifyIntegrity the whole message", 9)
 	c.Rule("C06.aliases", "the only colliding RC4 usages are 3→8, 9→8, 23→13", 5)
+	c.Rule("C06.stateless", "a crypto function touches package-level state only as a memo table keyed by all of its parameters themselves (on this tree: no package-level state at all): results do not depend on earlier calls", 6)
+	ruleStateless(w, c, "C06.stateless")
 
 	type dm struct {
 		fk, verify, decData string
@@ -239,6 +241,8 @@ func runC07(w *World, c *Check) {
 	c.Rule("C07.table", "GetChksumEtype maps {12→des3, 15→aes128-sha1, 16→aes256-sha1, 19→aes128-sha2, 20→aes256-sha2, −138→rc4} and nothing else; GetChksumEtype(e.GetHashID()) is e", 13)
 	c.Rule("C07.construct", "checksum = HMAC(DeriveKey(key, usage‖0x99), data) truncated to GetHMACBitLength()/8; RC4: HMAC-MD5(HMAC-MD5(key,\"signaturekey\\0\"), MD5(msgtype‖data))", 14)
 	c.Rule("C07.verify", "every VerifyChecksum returns a whole-slice equality of the whole presented checksum and the whole value computed from the same key, data, usage; compute error ⇒ false", 13)
+	c.Rule("C07.stateless", "a crypto function touches package-level state only as a memo table keyed by all of its parameters themselves (on this tree: no package-level state at all): results do not depend on earlier calls", 6)
+	ruleStateless(w, c, "C07.stateless")
 
 	// ---- table -------------------------------------------------------------------
 	if fn := w.Func("crypto.GetChksumEtype"); fn == nil {
